@@ -17,8 +17,9 @@ import (
 func flag(name string) bool { return sym.Choice(name, 2) == 1 }
 
 type memRemote struct {
-	data    map[string]string
-	failSet bool
+	data       map[string]string
+	failSet    bool
+	failExists bool
 }
 
 func (m *memRemote) TypeName() string { return "mem" }
@@ -45,6 +46,9 @@ func (m *memRemote) Delete(ctx context.Context, path, key string) error {
 	return nil
 }
 func (m *memRemote) Exists(ctx context.Context, path, key string) (bool, error) {
+	if m.failExists {
+		return false, errors.New("remote unavailable")
+	}
 	_, ok := m.data[path+"/"+key]
 	return ok, nil
 }
@@ -74,12 +78,17 @@ func VerifC08_R_no_dangling_remote_reference() {
 		_ = c0.Write(ctx, digest, strings.NewReader(content))
 		remote.failSet = false
 	}
-	// the build on the remote-enabled configuration (a new process)
+	// the build on the remote-enabled configuration (a new process); the remote's Head may be failing
+	remote.failExists = flag("remote_head_fails")
 	be := backends.NewRemoteWrapper(fs, remote)
 	cas := NewCas(be)
 	trc := NewTargetResultCache(be)
 	werr := cas.Write(ctx, digest, strings.NewReader(content))
-	sym.Assert(werr == nil, "C08.R1.blob-write-succeeds")
+	// a reported failure is fine (the build fails); what must not happen is a silent skip
+	sym.Assert(werr == nil || remote.failExists, "C08.R1.blob-write-fails-only-on-remote-errors")
+	if werr != nil {
+		return
+	}
 	tr := &gen.TargetResult{ChangeHash: "k", OutputHash: "o", Outputs: []*gen.Output{{Kind: &gen.Output_File{File: &gen.FileOutput{Path: "out", Digest: &gen.Digest{Hash: digest}}}}}}
 	sym.Assert(trc.Write(ctx, tr) == nil, "C08.R1.result-write-succeeds")
 	_, hasResult := remote.data["target/k"]
